@@ -11,7 +11,10 @@ type ACS struct {
 	Index, IsDefault, Binding, Location string
 	NoIsDefault                         bool
 }
-type SLO struct{ Binding, Location string }
+type SLO struct {
+	Binding, Location string
+	ResponseLocation  string `json:",omitempty"`
+}
 type CertEntry struct {
 	Use  string // "", signing, encryption
 	Text string
@@ -47,7 +50,11 @@ func (m SPMeta) XML() []byte {
 			fmt.Fprintf(&sb, `><ds:KeyInfo><ds:X509Data><ds:X509Certificate>%s</ds:X509Certificate></ds:X509Data></ds:KeyInfo></md:KeyDescriptor>`, EscAttr(c.Text))
 		}
 		for _, s := range m.SLO {
-			fmt.Fprintf(&sb, `<md:SingleLogoutService Binding="%s" Location="%s"/>`, EscAttr(s.Binding), EscAttr(s.Location))
+			fmt.Fprintf(&sb, `<md:SingleLogoutService Binding="%s" Location="%s"`, EscAttr(s.Binding), EscAttr(s.Location))
+			if s.ResponseLocation != "" {
+				fmt.Fprintf(&sb, ` ResponseLocation="%s"`, EscAttr(s.ResponseLocation))
+			}
+			sb.WriteString(`/>`)
 		}
 		for _, a := range m.ACS {
 			fmt.Fprintf(&sb, `<md:AssertionConsumerService Binding="%s" Location="%s" index="%s"`, EscAttr(a.Binding), EscAttr(a.Location), EscAttr(a.Index))
